@@ -67,6 +67,7 @@ impl Outcome {
 
 thread_local! {
     static LAST_PANIC: std::cell::RefCell<Option<String>> = std::cell::RefCell::new(None);
+    static IN_JOB: std::cell::Cell<bool> = std::cell::Cell::new(false);
 }
 
 pub fn install_silent_panic_hook() {
@@ -79,6 +80,10 @@ pub fn install_silent_panic_hook() {
             "<non-string panic payload>".to_string()
         };
         let loc = info.location().map(|l| format!(" at {}:{}", l.file(), l.line())).unwrap_or_default();
+        if !IN_JOB.with(|j| j.get()) {
+            // a panic of the harness itself must stay visible
+            eprintln!("HARNESS PANIC: {}{}", msg, loc);
+        }
         LAST_PANIC.with(|p| *p.borrow_mut() = Some(format!("{}{}", msg, loc)));
     }));
 }
@@ -86,6 +91,7 @@ pub fn install_silent_panic_hook() {
 /// Run one codegen call in this process (used by workers and by in-process properties that do
 /// not need isolation).
 pub fn run_job_here(job: &Job) -> Outcome {
+    IN_JOB.with(|j| j.set(true));
     let res = std::panic::catch_unwind(std::panic::AssertUnwindSafe(|| {
         let opts = job.opts.to_codegen();
         match &job.query {
@@ -95,6 +101,7 @@ pub fn run_job_here(job: &Job) -> Outcome {
         .map(|ts| ts.to_string())
         .map_err(|e| e.to_string())
     }));
+    IN_JOB.with(|j| j.set(false));
     match res {
         Ok(Ok(t)) => Outcome::Ok(t),
         Ok(Err(e)) => Outcome::Err(e),
@@ -102,7 +109,47 @@ pub fn run_job_here(job: &Job) -> Outcome {
     }
 }
 
+/// A history of calls executed inside one process: sequentially (threads <= 1) or partitioned
+/// round-robin over `threads` threads released together by a barrier.
+#[derive(Clone, Debug, Serialize, Deserialize)]
+pub struct History {
+    pub calls: Vec<Job>,
+    pub threads: usize,
+}
+
+pub fn run_history_here(h: &History) -> Vec<Outcome> {
+    let n = h.calls.len();
+    if h.threads <= 1 {
+        return h.calls.iter().map(run_job_here).collect();
+    }
+    let results: Arc<Mutex<Vec<Option<Outcome>>>> = Arc::new(Mutex::new(vec![None; n]));
+    let barrier = Arc::new(std::sync::Barrier::new(h.threads));
+    std::thread::scope(|s| {
+        for k in 0..h.threads {
+            let results = results.clone();
+            let barrier = barrier.clone();
+            let calls = &h.calls;
+            let threads = h.threads;
+            std::thread::Builder::new()
+                .stack_size(8 << 20)
+                .spawn_scoped(s, move || {
+                    barrier.wait();
+                    let mut i = k;
+                    while i < n {
+                        let o = run_job_here(&calls[i]);
+                        results.lock().unwrap()[i] = Some(o);
+                        i += threads;
+                    }
+                })
+                .expect("spawn history thread");
+        }
+    });
+    let r = results.lock().unwrap().clone();
+    r.into_iter().map(|o| o.unwrap_or(Outcome::Crash("thread died".into()))).collect()
+}
+
 /// `verif-driver worker`: one JSON job per line on stdin, one JSON outcome per line on stdout.
+/// A line starting with `H ` carries a History and is answered with a JSON list of outcomes.
 pub fn worker_main() {
     install_silent_panic_hook();
     let handle = std::thread::Builder::new()
@@ -116,6 +163,16 @@ pub fn worker_main() {
                     Err(_) => break,
                 };
                 if line.trim().is_empty() {
+                    continue;
+                }
+                if let Some(rest) = line.strip_prefix("H ") {
+                    let outs = match serde_json::from_str::<History>(rest) {
+                        Ok(h) => run_history_here(&h),
+                        Err(e) => vec![Outcome::Crash(format!("bad history: {}", e))],
+                    };
+                    let mut o = stdout.lock();
+                    let _ = writeln!(o, "{}", serde_json::to_string(&outs).unwrap());
+                    let _ = o.flush();
                     continue;
                 }
                 let job: Job = match serde_json::from_str(&line) {
@@ -334,4 +391,27 @@ impl Drop for Scratch {
     fn drop(&mut self) {
         let _ = std::fs::remove_dir_all(&self.dir);
     }
+}
+
+/// Run a whole history inside one fresh worker process. None = the process died / hung.
+pub fn run_history_fresh(h: &History, timeout: Duration) -> Result<Vec<Outcome>, String> {
+    let mut w = spawn_worker();
+    let line = format!("H {}", serde_json::to_string(h).unwrap());
+    if writeln!(w.stdin, "{}", line).and_then(|_| w.stdin.flush()).is_err() {
+        return Err(format!("worker pipe closed: {}", w.kill()));
+    }
+    let r = match w.rx.recv_timeout(timeout) {
+        Ok(l) => serde_json::from_str::<Vec<Outcome>>(&l).map_err(|e| format!("bad history answer: {}", e)),
+        Err(RecvTimeoutError::Timeout) => {
+            w.kill();
+            return Err("history timed out".into());
+        }
+        Err(RecvTimeoutError::Disconnected) => {
+            let st = w.child.wait().map(|s| describe_status(&s)).unwrap_or_default();
+            return Err(format!("worker died: {}", st));
+        }
+    };
+    drop(w.stdin);
+    let _ = w.child.wait();
+    r
 }
